@@ -191,7 +191,7 @@ func TestC20(t *testing.T) {
 		tn := "tn-root"
 		editors := accessJSON("e", tn, owner)
 		viewers := accessJSON("v", tn, owner)
-		if r := f.Exec(fttypes.NewMsgProvisionFileTree(owner, editors, viewers, tn)); !r.OK() {
+		if r := f.Exec(newMsgProvisionFileTree(owner, editors, viewers, tn)); !r.OK() {
 			rt.Fatalf("provision failed: %v", r)
 		}
 		segs := append([]string{"s"}, genSegs(rt, "seg", 1, 5)...)
